@@ -12,7 +12,7 @@ use serde_json::{json, Value};
 use std::borrow::Cow;
 use std::time::Instant;
 
-pub const RULE: &str = "case = (encoding, method, complete input): byte strings with the first non-ASCII / invalid / state-changing unit at every offset 0..=130 (covering every offset modulo 64 and the 16/32/64-byte stride and SIMD-validator thresholds) followed by 0, 1, 63, 64, 65 or 1000 more bytes, ASCII-only, valid and invalid UTF-8, BOM-prefixed, and seeded grammar streams; for encode: mappable, unmappable-heavy (forces the regrowth path) and ISO-2022-JP ASCII-state-only texts. Oracle = differential against the streaming converter of the same build fed the whole input in one call with an ample buffer (text/bytes, error flag, encoding used); *_without_replacement is None iff that run saw a Malformed; Cow::Borrowed iff the documented promise applies, computed from the input by definition (after BOM removal: valid UTF-8 for UTF-8, ASCII-only for ASCII-compatible encodings, ASCII-state-only for ISO-2022-JP; any input when the output encoding is UTF-8; no assertion for empty input), and a borrow's pointer range is exactly the argument minus its BOM. Encoding::decode for UTF-8 is additionally run with the scalar UTF-8 validator forced through the hook. Non-trivial = input that is not borrowable; distinct = distinct (method, encoding, input).";
+pub const RULE: &str = "case = (encoding, method, complete input): byte strings with the first non-ASCII / invalid / state-changing unit at every offset 0..=130 (covering every offset modulo 64 and the 16/32/64-byte stride and SIMD-validator thresholds) followed by 0, 1, 63, 64, 65 or 1000 more bytes, ASCII-only, valid and invalid UTF-8, BOM-prefixed, and seeded grammar streams; for encode: mappable, unmappable-heavy (forces the regrowth path) and ISO-2022-JP ASCII-state-only texts; runs of k copies of one unit followed by another for EVERY k up to 300 (decode: 140), because the one-shot methods size their output from an estimate and grow it in steps; ASCII / near-ASCII / UTF-8 inputs of 64 KiB to 16 MiB (thorough 32 MiB) for the borrow promise. Oracle = differential against the streaming converter of the same build fed the whole input in one call with an ample buffer (text/bytes, error flag, encoding used); *_without_replacement is None iff that run saw a Malformed; Cow::Borrowed iff the documented promise applies, computed from the input by definition (after BOM removal: valid UTF-8 for UTF-8, ASCII-only for ASCII-compatible encodings, ASCII-state-only for ISO-2022-JP; any input when the output encoding is UTF-8; no assertion for empty input), and a borrow's pointer range is exactly the argument minus its BOM. Encoding::decode for UTF-8 is additionally run with the scalar UTF-8 validator forced through the hook. Non-trivial = input that is not borrowable; distinct = distinct (method, encoding, input).";
 
 fn case_json(enc: &'static Encoding, method: &str, bytes: &[u8]) -> Value {
     json!({"kind": "c11", "encoding": encs::const_name(enc), "method": method, "input_hex": fw::hex(bytes)})
@@ -443,6 +443,147 @@ fn structured_encode(ctx: &Ctx) -> Stats {
     })
 }
 
+/// runs: k copies of X followed by Y, for EVERY k up to a bound - the one-shot methods size their
+/// output from an estimate and grow it on OutputFull, so what matters is where the output length
+/// falls relative to the estimate and to the growth steps, i.e. particular values of k
+fn runs_family(ctx: &Ctx) -> Stats {
+    let all = encs::all();
+    let thorough = ctx.tier == fw::Tier::Thorough;
+    let rich = super::ench::encoder_encodings();
+    let mut st = par_run(ctx, all.len() * 2, |part, st| {
+        let enc = all[part / 2];
+        let half = part % 2;
+        let mut drv = EncDriver::new();
+        let alpha: Vec<u32> = hist_enc::alphabet(enc).into_iter().filter(|c| !crate::drive_enc::is_sur(*c)).collect();
+        let is_rich = rich.iter().any(|e| *e == enc);
+        // X: what makes the output outgrow the estimate (escapes, unmappables with long references) plus a mapped character
+        let mut xs: Vec<u32> = vec![0x1B, 0x0E, 0x80, 0x5D0, 0x1F600, 0x10FFFF, 0xE9];
+        if let Some(m) = alpha.iter().find(|c| **c >= 0x80 && crate::model_enc::mappable(crate::model_enc::enc_algo_for(enc), **c)) {
+            xs.push(*m);
+        }
+        let ys: Vec<u32> = if is_rich { alpha.clone() } else { vec![0x61, 0xE9, 0x4E00, 0x1F600] };
+        let kmax = if thorough { 520 } else { 300 };
+        for (xi, &x) in xs.iter().enumerate() {
+            if xi % 2 != half {
+                continue;
+            }
+            let xc = char::from_u32(x).unwrap();
+            for &y in &ys {
+                let yc = char::from_u32(y).unwrap();
+                let mut s = String::new();
+                for k in 0..=kmax {
+                    if fw::should_stop() {
+                        return;
+                    }
+                    if k > 0 {
+                        s.push(xc);
+                    }
+                    let mut t = s.clone();
+                    t.push(yc);
+                    st.evals += 1;
+                    st.nontrivial_distinct();
+                    st.class("encode-run-of-k-then-one");
+                    if let Some(msg) = check_encode(enc, &t, &mut drv) {
+                        st.violations.push(Violation { msg: format!("{} text {} x U+{:04X} then U+{:04X}: {}", enc.name(), k, x, y, msg), sig: "C11:encode".into(), case: json!({"kind": "c11_encode", "encoding": encs::const_name(enc), "text_utf8_hex": fw::hex(t.as_bytes())}) });
+                        return;
+                    }
+                }
+            }
+        }
+    });
+    st.exhaustive.push("encode: per encoding, k copies of X then Y for every k in 0..=300 (thorough 520), X in {ESC, SO, U+0080, U+05D0, U+1F600, U+10FFFF, U+00E9, a mapped character}, Y over the class alphabet".into());
+    if fw::should_stop() {
+        return st;
+    }
+    let d = par_run(ctx, all.len() * 2, |part, st| {
+        let enc = all[part / 2];
+        let half = part % 2;
+        let algo = algo_for(enc);
+        let mut drv = DecDriver::new();
+        let mut specials: Vec<Vec<u8>> = crate::hist::atoms(algo).into_iter().filter(|a| a != b"a").collect();
+        specials.push(vec![0xFF]);
+        specials.push(vec![0x1B]);
+        let step = (specials.len() / 8).max(1);
+        let xs: Vec<Vec<u8>> = specials.iter().cloned().step_by(step).collect();
+        let ys: Vec<Vec<u8>> = vec![b"a".to_vec(), specials[0].clone(), vec![0xFF], vec![]];
+        let kmax = if thorough { 300 } else { 140 };
+        for (xi, x) in xs.iter().enumerate() {
+            if xi % 2 != half {
+                continue;
+            }
+            for y in &ys {
+                let mut s: Vec<u8> = Vec::new();
+                for k in 0..=kmax {
+                    if fw::should_stop() {
+                        return;
+                    }
+                    if k > 0 {
+                        s.extend_from_slice(x);
+                    }
+                    let mut t = s.clone();
+                    t.extend_from_slice(y);
+                    st.class("decode-run-of-k-then-one");
+                    if !run_dec_bytes(enc, &t, &mut drv, st, true) {
+                        return;
+                    }
+                }
+            }
+        }
+    });
+    st.merge(d);
+    st.exhaustive.push("decode*: per encoding, k copies of X then Y for every k in 0..=140 (thorough 300), X over ~8 special units (valid, malformed, escapes), Y in {ASCII, special, FF, nothing}".into());
+    st
+}
+
+/// multi-megabyte inputs: the borrow promise and the equality with streaming must not depend on
+/// the input being small (sizes around 2^16, 2^20, 2^22, 2^23, 2^24)
+fn big_inputs(ctx: &Ctx) -> Stats {
+    let all = encs::all();
+    let sizes: Vec<usize> = if ctx.tier == fw::Tier::Thorough { vec![(1 << 16) + 1, (1 << 20) + 3, (1 << 22) + 1, (1 << 23) + 5, (1 << 24) + 1, (1 << 25) + 7] } else { vec![(1 << 16) + 1, (1 << 22) + 1, (1 << 24) + 1] };
+    let mut st = par_run(ctx, all.len() * sizes.len(), |part, st| {
+        let enc = all[part / sizes.len()];
+        let size = sizes[part % sizes.len()];
+        let mut drv = DecDriver::new();
+        // (1) ASCII only, (2) ASCII with one non-ASCII byte at the very end, (3) for UTF-8: valid multi-byte text
+        let mut v: Vec<u8> = (0..size).map(|i| b' ' + (i % 90) as u8).collect();
+        st.class("input-of-64KiB-to-32MiB");
+        if !run_dec_bytes(enc, &v, &mut drv, st, true) {
+            return;
+        }
+        let n = v.len();
+        v[n - 1] = 0xE9;
+        st.class("input-of-64KiB-to-32MiB");
+        if !run_dec_bytes(enc, &v, &mut drv, st, true) {
+            return;
+        }
+        if enc == UTF_8 {
+            let mut t = String::with_capacity(size + 8);
+            while t.len() < size {
+                t.push_str("a\u{E9}\u{4E2D}\u{1F600} ");
+            }
+            st.class("input-of-64KiB-to-32MiB");
+            if !run_dec_bytes(enc, t.as_bytes(), &mut drv, st, true) {
+                return;
+            }
+            let mut w = b"\xEF\xBB\xBF".to_vec();
+            w.extend_from_slice(t.as_bytes());
+            if !run_dec_bytes(enc, &w, &mut drv, st, true) {
+                return;
+            }
+        }
+        // encode: ASCII text must come back as a borrow whatever its size
+        let text: String = (0..size).map(|i| (b' ' + (i % 90) as u8) as char).collect();
+        st.evals += 1;
+        st.nontrivial_distinct();
+        let mut ed = EncDriver::new();
+        if let Some(msg) = check_encode(enc, &text, &mut ed) {
+            st.violations.push(Violation { msg: format!("{} ASCII text of {} bytes: {}", enc.name(), size, msg), sig: "C11:encode".into(), case: json!({"kind": "c11_encode_big_ascii", "encoding": encs::const_name(enc), "size": size}) });
+        }
+    });
+    st.exhaustive.push(format!("decode* and encode: per encoding, ASCII inputs (and ASCII + one final non-ASCII byte; UTF-8: multi-byte text with and without BOM) of sizes {:?}", sizes));
+    st
+}
+
 pub fn run(ctx: &Ctx) -> i32 {
     let t0 = Instant::now();
     let mut st = structured(ctx, false);
@@ -455,6 +596,12 @@ pub fn run(ctx: &Ctx) -> i32 {
         st.merge(structured_encode(ctx));
     }
     if !fw::should_stop() {
+        st.merge(runs_family(ctx));
+    }
+    if !fw::should_stop() {
+        st.merge(big_inputs(ctx));
+    }
+    if !fw::should_stop() {
         st.merge(random_part(ctx));
     }
     fw::finish(ctx, st, RULE, &["the streaming converters are tied to the Standard by C01/C03 and to chunking independence by C02/C04", "for empty input (after BOM removal) no borrow/owned assertion is made (a borrow of nothing is returned for every encoding and is harmless)"], t0.elapsed().as_secs_f64()).exit
@@ -462,6 +609,14 @@ pub fn run(ctx: &Ctx) -> i32 {
 
 pub fn replay(case: &Value) -> Option<Vec<Violation>> {
     let enc = encs::by_const(case.get("encoding")?.as_str()?)?;
+    if case.get("kind")?.as_str()? == "c11_encode_big_ascii" {
+        let size = case.get("size")?.as_u64()? as usize;
+        let text: String = (0..size).map(|i| (b' ' + (i % 90) as u8) as char).collect();
+        return Some(match check_encode(enc, &text, &mut EncDriver::new()) {
+            None => vec![],
+            Some(m) => vec![Violation { msg: m, sig: "C11:encode".into(), case: case.clone() }],
+        });
+    }
     if case.get("kind")?.as_str()? == "c11_encode" {
         let b = fw::unhex(case.get("text_utf8_hex")?.as_str()?);
         let s = String::from_utf8(b).ok()?;
